@@ -18,11 +18,12 @@ import (
 
 // Ctx is the context of one property run.
 type Ctx struct {
-	Prog *core.Program
-	Pkg  *packages.Package
-	R    *core.Report
-	Tier string
-	fo   map[string]*FO
+	Prog    *core.Program
+	Pkg     *packages.Package
+	R       *core.Report
+	Tier    string
+	fo      map[string]*FO
+	bkCache map[string]*bkRun
 }
 
 // Property is a registered check.
